@@ -381,9 +381,9 @@ fn stub_from_utf8(v: &[u8]) -> Result<&str, core::str::Utf8Error> {
     if unsafe { U_VALIDATOR_SAYS_OK } {
         Ok(unsafe { core::str::from_utf8_unchecked(v) })
     } else {
-        // some genuine Utf8Error value
-        #[allow(invalid_from_utf8)]
-        match core::str::from_utf8(&[0xFFu8]) {
+        // some genuine Utf8Error value (from_utf8_mut does not go through the stubbed function)
+        let mut bad = [0xFFu8];
+        match core::str::from_utf8_mut(&mut bad) {
             Err(e) => Err(e),
             Ok(_) => loop {},
         }
